@@ -1,6 +1,6 @@
 (** Dispatch table of the correspondence checks: property number, then the
     lab kind tag that leads every case input. *)
-From Coq Require Import List ZArith.
+From Coq Require Import List ZArith Bool.
 From TR Require Import Lib.Sx Run.C12 Run.Eng Run.Doc Run.Pol Run.Drv.
 Import ListNotations.
 Open Scope Z_scope.
@@ -8,7 +8,7 @@ Open Scope Z_scope.
 Definition kind_of (inp : sx) : Z := match inp with L (A k :: _) => k | _ => -1 end.
 
 Definition check (prop : Z) (inp impl : sx) : sx :=
-  if prop =? 12 then check_c12 inp impl
+  if (prop =? 12) && negb (kind_of inp =? 7) then check_c12 inp impl
   else match kind_of inp with
        | 1 => check_eng prop inp impl
        | 2 => check_doc prop inp impl
